@@ -412,6 +412,12 @@ class Engine(CoreMixin, ExprMixin, StmtMixin, CallMixin, BuiltinMixin):
                 return
             raise Unsupported('write set: unknown method %s' % m)
         if isinstance(f, ast.Name):
+            if f.id == 'next' and self.frame is not None:
+                # next(<list iterator>) advances the iterator's position (a hidden local, see bi_iter)
+                for name in self.frame.locals:
+                    if name.startswith('_it_'):
+                        locs.add(name)
+                return
             if f.id in PURE_FUNCS:
                 return
             found = self._lookup_callees(f.id, funcs_only=True)
